@@ -10,6 +10,10 @@ ReduceEH theorems quantify over every tree shape and every schedule of fold step
 -/
 import TbbVerif.Proofs.C03.Counters
 import TbbVerif.Proofs.C03.Reduce
+import TbbVerif.Proofs.C03.Drop
+import TbbVerif.Proofs.C03.ExecMain
+import TbbVerif.Proofs.C03.GraphMain
+import TbbVerif.Proofs.C03.PipeMain
 import TbbVerif.Generated.C03
 
 namespace TbbVerif.C03
@@ -227,6 +231,369 @@ theorem reduce_no_join_when_cancelled (s : RState) (hc : s.cancelled = true) (a 
   | decRoot => simp only [rstep]; split <;> simp [RT.setMerged_joins]
   | cancel => rfl
 
+/-! ## Strengthened `eh_no_swallow`: exactly when an exception is dropped -/
+
+/-- **An exception is dropped only in the catch block, and only when the flag is already held.**  A thread in the catch block
+(`caught`: the relaxed load of `cancel_group_execution`, `xchg`: the exchange) either goes on towards storing its exception, or it
+returns to the dispatch loop WITHOUT storing — and then the context was already cancelled at that access: by the thrower that won the
+exchange (a second exception in the same group: the group delivers the winner's) or by somebody else (an explicit cancellation: the
+documented case in which the wait reports `canceled`).  There is no other transition in which an exception disappears: every throw of a
+body or of a join callback enters the catch block (`eh_worker_total_catch`). -/
+theorem eh_drop_only_when_flag_held (prog : Prog) (rounds : List (List Nat)) (sched : List Act) (s : State)
+    (hs : s = run prog rounds sched) (t : Tid) (i : Nat) (e : ExcId) (c : Nat) (h : s.pcs t = .caught i e ∨ s.pcs t = .xchg i e) :
+    let s' := (stepThr s t c).1
+    (s'.pcs t = .xchg i e ∨ (s'.pcs t = .store i e ∧ s'.winner = some t)) ∨
+    (s'.pcs t = .check i ∧ s.cancelled = true ∧ (s.winner.isSome = true ∨ s.extC = true) ∧ s'.exc = s.exc) := by
+  subst hs
+  have hI := inv_run prog rounds sched
+  have hcanc := hI.canc
+  unfold stepThr
+  rcases h with h | h <;> rw [h] <;> simp only
+  · by_cases hc : (run prog rounds sched).cancelled = true
+    · rw [if_pos hc]; right
+      rw [hc] at hcanc
+      refine ⟨by simp, hc, ?_, by simp⟩
+      cases hw : (run prog rounds sched).winner <;> simp_all
+    · rw [if_neg hc]; left; left; simp
+  · by_cases hc : (run prog rounds sched).cancelled = true
+    · rw [if_pos hc]; right
+      rw [hc] at hcanc
+      refine ⟨by simp, hc, ?_, by simp⟩
+      cases hw : (run prog rounds sched).winner <;> simp_all
+    · rw [if_neg hc]; left; right; simp
+
+/-- **No exception is swallowed — exact form.**  For every completed wait of the group: the waiting call rethrew an exception IF AND
+ONLY IF some work of the group threw in that epoch and the cancellation flag was not taken by somebody else first; what it rethrew was
+thrown by the group in that epoch; exactly one exception object was stored in that case and none otherwise; when somebody else held the
+flag the call reported `canceled` (every exception of that epoch was dropped: the documented case); and it reported `complete` exactly
+when nothing threw and nobody cancelled.  So of the `r.thrown.length` exceptions of an epoch exactly one is delivered when the group
+itself raised the cancellation, and all the others — and only those — are dropped. -/
+theorem eh_no_swallow_exact (prog : Prog) (rounds : List (List Nat)) (sched : List Act) :
+    ∀ r ∈ (run prog rounds sched).results,
+      ((∃ e, r.res = .rethrown e) ↔ (r.thrown ≠ [] ∧ r.extC = false)) ∧
+      (∀ e, r.res = .rethrown e → e ∈ r.thrown) ∧
+      ((∃ e, r.res = .rethrown e) ↔ r.stores = 1) ∧ r.stores ≤ 1 ∧
+      (r.extC = true → r.res = .canceled) ∧
+      (r.res = .complete ↔ (r.thrown = [] ∧ r.extC = false)) := by
+  intro r hr
+  have h := (inv_run prog rounds sched).res r hr
+  have h2 := (inv2_run prog rounds sched).res2 r hr
+  refine ⟨⟨?_, fun ⟨h1, h3⟩ => ?_⟩, h.rethrown_mem, h2.2, h.stores_le, fun hx => (h2.1 hx).1, ⟨fun hc => ?_, fun ⟨h1, h3⟩ => h.complete h1 h3⟩⟩
+  · rintro ⟨e, he⟩
+    refine ⟨fun hn => ?_, ?_⟩
+    · have := h.rethrown_mem e he; rw [hn] at this; cases this
+    · cases hx : r.extC with
+      | false => rfl
+      | true => have := (h2.1 hx).1; rw [he] at this; cases this
+  · obtain ⟨e, _, he⟩ := h.no_swallow h1 h3; exact ⟨e, he⟩
+  · have hx : r.extC = false := by
+      cases hx : r.extC with
+      | false => rfl
+      | true => have := (h2.1 hx).1; rw [hc] at this; cases this
+    refine ⟨?_, hx⟩
+    cases ht : r.thrown with
+    | nil => rfl
+    | cons a l =>
+      obtain ⟨e, _, he⟩ := h.no_swallow (by rw [ht]; simp) hx
+      rw [hc] at he; cases he
+
+/-! ## Clients of the exception machinery -/
+
+/-- The skeleton of `task_arena_impl::execute`, `delegated_task` and of the dispatcher's catch block as the source has it NOW
+(regenerated on every run): the rethrow is guarded by the loaded pointer only, the load comes after the wait loop, `dt` is the last
+local (its destructor — the spin on `m_completed` — runs first), `finalize()` is release / notify / completed in this order, both
+`execute()` and `cancel()` finalise, the exception is stored only by the winner of the exchange. -/
+theorem exec_skeleton_ok : (Exec.skelOfNats Generated.C03.execSkel).ok = true := by decide
+
+/-- **`task_arena::execute`: the functor's exception reaches the caller, exactly once, and nobody else.**  For every skeleton satisfying
+`ok` (in particular the regenerated one), every functor behaviour, every schedule of caller / taker steps with ANY thread taking the
+delegated task (another thread inside the arena, or the caller itself after it obtained a slot) and either path (direct call on the
+caller's stack, or delegation):
+(1) whatever leaves `execute` leaves it on thread 0 (the caller) and is the functor's own exception;
+(2) the call exits exactly once — `outs.length + returned` is 1 after the exit and 0 before;
+(3) when it has exited the functor ran exactly once and has ended, nobody holds the delegated task any more (not even inside
+    `finalize()`), it is not queued; if the functor threw `e` exactly `(0, e)` left and the call did not return normally (no swallow),
+    if it did not throw nothing left and it returned;
+(4) while the functor is running the call has not exited;
+(5) ledger: `delegated_task` is destroyed at most once and (delegated path) exactly once, only after `m_completed`; the runner never
+    touches it after that; at most one exception object is allocated and it is freed exactly once (by `~exec_context`). -/
+theorem execute_exception_to_caller (sk : Exec.Skel) (hk : sk.ok = true) (fn : Outcome) (acts : List Exec.Act) (s : Exec.State)
+    (hs : s = Exec.run sk fn acts) :
+    (∀ p ∈ s.outs, p.1 = 0 ∧ fn = .throw p.2) ∧
+    (s.outs.length + s.returned = if s.cpc = .exited then 1 else 0) ∧
+    (s.cpc = .exited → s.started = 1 ∧ s.ended = 1 ∧ s.rp = .none ∧ s.queued = false ∧
+      (∀ e, fn = .throw e → s.outs = [(0, e)] ∧ s.returned = 0) ∧ (fn = .ok → s.outs = [] ∧ s.returned = 1)) ∧
+    (s.ended < s.started → s.cpc ≠ .exited) ∧
+    (s.dtDestroyed ≤ 1 ∧ s.excFreed ≤ s.excAlloc ∧ s.excAlloc ≤ 1 ∧ s.touchedDead = 0) ∧
+    (s.cpc = .exited → s.dtDestroyed = (if s.deleg then 1 else 0) ∧ s.excFreed = s.excAlloc) := by
+  have hfn : s.fn = fn := by rw [hs]; exact Exec.run_fn sk fn acts
+  have hI : Exec.Inv s := by rw [hs]; exact Exec.inv_run sk hk fn acts
+  by_cases hx : s.cpc = .exited
+  · obtain ⟨h1, h2, h3, h4, h5, h6, h7, _⟩ := Exec.exited_facts hI hx
+    rw [hfn] at h5
+    refine ⟨?_, ?_, fun _ => ⟨h1, h2, h3, h4, ?_, ?_⟩, fun hlt _ => by omega, hI.ledger, fun _ => ⟨h7, h6⟩⟩
+    · intro p hp
+      cases fn with
+      | ok => simp only at h5; rw [h5.1] at hp; cases hp
+      | throw e => simp only at h5; rw [h5.1] at hp; simp at hp; subst hp; exact ⟨rfl, rfl⟩
+    · rw [if_pos hx]
+      cases fn with
+      | ok => simp only at h5; rw [h5.1, h5.2]; rfl
+      | throw e => simp only at h5; rw [h5.1, h5.2]; rfl
+    · intro e he; subst he; exact h5
+    · intro he; subst he; exact h5
+  · obtain ⟨h1, h2⟩ := Exec.not_exited_outs hI hx
+    refine ⟨?_, ?_, fun h => absurd h hx, fun _ => hx, hI.ledger, fun h => absurd h hx⟩
+    · intro p hp; rw [h1] at hp; cases hp
+    · rw [if_neg hx, h1, h2]; rfl
+
+/-- The skeleton of `graph::wait_for_all` and `graph::reset` as the headers have it now. -/
+theorem graph_skeleton_ok : (Graph.skelOfNats Generated.C03.graphSkel).ok = true := by decide
+
+/-- **`graph::wait_for_all` rethrows only after quiescence, leaves the graph cancelled, and `reset()` makes it reusable.**
+`g.d` is a DispatchEH state reached by a DispatchEH schedule (so every theorem above holds for the node-body tasks of the graph: single
+exception, finalised once, worker total catch, no swallow).  On top of that, for every skeleton satisfying `ok`, program, rounds and
+schedule (thread steps, `graph::cancel()` by anybody, `reset()` calls):
+(1) every exception that left `wait_for_all` is one that an epoch of the graph rethrew and that a body of the graph threw in that epoch;
+(2) every completed wait left `wait_for_all` exactly once (by exception or by return);
+(3) an exception leaves only in a step of thread 0, from the handler, in a quiescent state (wait counter 0, every task finished, every
+    other thread idle): no body of the graph is running or can start; afterwards `is_cancelled()` and `exception_thrown()` are true, a
+    `reset()` is required, and the exception is recorded once;
+(4) the handler's first statement leaves the context reset (not cancelled, no stored exception) in a quiescent state;
+(5) a normal return also happens only from a quiescent state, leaves the context reset, and `exception_thrown()` is false;
+(6) while a `reset()` is required thread 0 cannot start the next round;
+(7) `reset()` clears both flags, leaves the graph active and allows the next round (in which, by `eh_no_swallow_exact`, a fault-free run
+    reports `complete`). -/
+theorem graph_wait_rethrows_after_quiescence (sk : Graph.Skel) (hk : sk.ok = true) (prog : Prog) (rounds : List (List Nat))
+    (gacts : List Graph.Act) (g : Graph.State) (hg : g = Graph.run sk prog rounds gacts) :
+    (∃ acts, g.d = run prog rounds acts) ∧
+    (∀ e ∈ g.outs, ∃ r ∈ g.d.results, r.res = .rethrown e ∧ e ∈ r.thrown) ∧
+    (g.outs.length + g.rets + (match g.gpc with | .handler _ => 1 | _ => 0) = g.d.results.length) ∧
+    (∀ a e, (Graph.step g a).2 = some e →
+      (∃ c, a = .d (.thr 0 c)) ∧ Graph.Quiescent g.d ∧
+      (Graph.step g a).1.gCancelled = true ∧ (Graph.step g a).1.gCaught = true ∧ (Graph.step g a).1.needsReset = true ∧
+      (Graph.step g a).1.outs = e :: g.outs) ∧
+    (∀ c e, g.gpc = .inner → g.d.pcs 0 = .wreset (some e) →
+      (Graph.step g (.d (.thr 0 c))).1.gpc = .handler e ∧ (Graph.step g (.d (.thr 0 c))).1.d.cancelled = false ∧
+      (Graph.step g (.d (.thr 0 c))).1.d.exc = none ∧ Graph.Quiescent (Graph.step g (.d (.thr 0 c))).1.d) ∧
+    (∀ c, g.gpc = .retReset →
+      Graph.Quiescent g.d ∧ g.gCaught = false ∧ (Graph.step g (.d (.thr 0 c))).1.rets = g.rets + 1 ∧
+      (Graph.step g (.d (.thr 0 c))).1.d.cancelled = false ∧ (Graph.step g (.d (.thr 0 c))).1.d.exc = none ∧
+      (Graph.step g (.d (.thr 0 c))).1.needsReset = g.gCancelled ∧ (Graph.step g (.d (.thr 0 c))).1.gCaught = false) ∧
+    (∀ c, g.gpc = .user → g.needsReset = true → (Graph.step g (.d (.thr 0 c))).1.d = g.d) ∧
+    (g.gpc = .user →
+      (Graph.step g .reset).1.gCancelled = false ∧ (Graph.step g .reset).1.gCaught = false ∧ (Graph.step g .reset).1.gActive = true ∧
+      (Graph.step g .reset).1.needsReset = false ∧ (Graph.step g .reset).1.d = g.d) := by
+  subst hg
+  have hG := Graph.ginv_run sk prog rounds gacts
+  have hF := Graph.flag_run sk hk prog rounds gacts
+  have hs := Graph.skel_fields hF.1
+  obtain ⟨acts, hacts⟩ := Graph.d_reachable sk prog rounds gacts
+  refine ⟨⟨acts, hacts⟩, ?_, hG.acct, ?_, ?_, ?_, ?_, ?_⟩
+  · intro e he
+    obtain ⟨r, hr, hres⟩ := hG.outs e he
+    exact ⟨r, hr, hres, (hG.dinv.res r hr).rethrown_mem e hres⟩
+  · intro a e h
+    obtain ⟨h1, h2, h3, h4, h5, h6, _, _⟩ := Graph.step_out a e h
+    refine ⟨h1, (hG.handler e h2).1, ?_, ?_, h5, h6⟩
+    · rw [h4, hs.2.2.2.2.2.1]; rfl
+    · rw [h3, hs.2.2.2.2.1]; rfl
+  · intro c e hgp hp
+    obtain ⟨h1, h2, h3, _, _, h6, h7⟩ := Graph.stepThr_wreset hp c
+    have hq := Graph.quiescent_of_wreset hG.dinv hp
+    simp only [Graph.step, ne_eq, not_true_eq_false, if_false, hgp, hp]
+    exact ⟨trivial, h6, h7, by rw [h2]; exact hq.1, by rw [h1]; exact hq.2.1, fun t ht => by rw [h3 t ht]; exact hq.2.2 t ht⟩
+  · intro c hgp
+    have hp := hG.ret hgp
+    obtain ⟨_, _, _, _, _, h6, h7⟩ := Graph.stepThr_wreset hp c
+    have hcf := hF.2 (Or.inr hgp)
+    simp only [Graph.step, ne_eq, not_true_eq_false, if_false, hgp]
+    exact ⟨Graph.quiescent_of_wreset hG.dinv hp, hcf, trivial, h6, h7, trivial, hcf⟩
+  · intro c hgp hn
+    simp only [Graph.step, ne_eq, not_true_eq_false, if_false, hgp, hn, if_true]
+    split <;> rfl
+  · intro hgp
+    simp only [Graph.step, hgp, if_true, hs.2.2.2.2.2.2.2.2.1, hs.2.2.2.2.2.2.2.2.2.2]
+    exact ⟨trivial, trivial, trivial, trivial, trivial⟩
+
+/-- The skeleton of `stage_task` (destructor, cancel, execute, parking), of the filter wrappers (`concrete_filter::operator()` / `finalize`,
+the input filter's stop path) as parallel_pipeline.cpp / _pipeline_filters.h have them now.  `bufferClears` — whether tokens still parked in
+an `input_buffer` are finalised when the pipeline is destroyed — is NOT part of `ok`: it is a parameter of the theorem below (false today). -/
+theorem pipe_skeleton_ok : (Pipe.skelOfNats Generated.C03.pipeSkel).ok = true := by decide
+
+/-- **parallel_pipeline: every token object is destroyed exactly once — except a token still parked in a serial filter's buffer when the
+pipeline is torn down, which is destroyed exactly once iff the tear-down clears the buffers.**  For every skeleton, every schedule of stage
+task steps (with every choice of body outcome — value, no value, `flow_control::stop`, exception `e` —, of parking / waking / spawning /
+recycling, an over-approximation of the buffer discipline) and waiter steps:
+(1) no token object is ever destroyed twice; no stage task runs its destructor twice or releases the wait context before / more often than that;
+(2) a token object that is alive is either owned by exactly one stage task (and not parked) or parked in a buffer (and owned by nobody);
+(3) once the waiter has left the wait, the wait counter is 0 and every stage task is dead, destroyed once, released once — no body of the
+    pipeline runs or can start;
+(4) when `parallel_pipeline` has exited: it exited once (one exception, which a body of the pipeline threw, or a return); every token object
+    was destroyed exactly once, or it is one that was still parked and the tear-down does not clear (`bufferClears = false`); so with a
+    clearing tear-down, and in every run that leaves nothing parked (`leaked = 0`), every token object is destroyed exactly once. -/
+theorem pipeline_tokens_destroyed_once (sk : Pipe.Skel) (acts : List Pipe.Act) (s : Pipe.State) (hs : s = Pipe.run sk acts) :
+    (∀ a, a < s.nobjs → (s.objs a).destroyed ≤ 1) ∧
+    (∀ i, i < s.ntasks → (s.tasks i).fins ≤ 1 ∧ (s.tasks i).rels ≤ (s.tasks i).fins) ∧
+    (∀ a, a < s.nobjs → (s.objs a).destroyed = 0 →
+      ((s.objs a).owner.isSome = true ∧ (s.objs a).parked = false) ∨ ((s.objs a).owner = none ∧ (s.objs a).parked = true)) ∧
+    (s.wpc ≠ .waiting → s.count = 0 ∧ ∀ i, i < s.ntasks → (s.tasks i).pc = .dead ∧ (s.tasks i).fins = 1 ∧ (s.tasks i).rels = 1) ∧
+    (s.wpc = .exited →
+      s.outs.length + s.rets = 1 ∧ (∀ e, e ∈ s.outs → e ∈ s.thrown) ∧
+      (∀ a, a < s.nobjs → ((s.objs a).destroyed = 1 ∧ (s.objs a).parked = false) ∨
+        ((s.objs a).destroyed = 0 ∧ (s.objs a).parked = true ∧ sk.bufferClears = false)) ∧
+      (sk.bufferClears = true → ∀ a, a < s.nobjs → (s.objs a).destroyed = 1) ∧
+      (s.leaked = 0 → ∀ a, a < s.nobjs → (s.objs a).destroyed = 1)) := by
+  subst hs
+  have h := Pipe.invP_run sk acts
+  have hO := Pipe.invO_run sk acts
+  have hsk := Pipe.run_sk sk acts
+  refine ⟨fun a ha => (h.inv1.objs a ha).le, ?_, ?_, ?_, ?_⟩
+  · intro i hi
+    have hp := (h.inv1.tasks i hi).pc
+    unfold Pipe.pcFacts at hp
+    cases hpc : ((Pipe.run sk acts).tasks i).pc <;> rw [hpc] at hp <;> simp only at hp <;> (try exact hp.elim) <;> omega
+  · intro a ha hd
+    obtain ⟨_, hown, hpark, hkept⟩ := h.inv1.objs a ha
+    rcases hkept hd with hx | hx
+    · left
+      cases ho : ((Pipe.run sk acts).objs a).owner with
+      | none => rw [ho] at hx; cases hx
+      | some i => exact ⟨rfl, (hown i ho).2.2.1⟩
+    · right; exact ⟨(hpark hx).2, hx⟩
+  · intro hw
+    have h0 := h.wait hw
+    refine ⟨h0, fun i hi => ?_⟩
+    have hd := Pipe.all_dead h h0 i hi
+    have hp := (h.inv1.tasks i hi).pc
+    simp only [Pipe.pcFacts, hd] at hp
+    exact ⟨hd, hp.2.1, hp.2.2⟩
+  · intro hx
+    obtain ⟨hs1, hs2, hs3⟩ := h.settled (Or.inl hx)
+    refine ⟨h.oe.2 hx, hO.outs, ?_, ?_, hs2⟩
+    · intro a ha; have := hs1 a ha; rw [hsk] at this; exact this
+    · intro hb; exact hs2 (hs3 (by rw [hsk]; exact hb))
+
+/-- **Negation witness for the unconditional statement** (the code as it is: `bufferClears = false`): stage task 0 produces a token, spawns
+the next input task and parks its token in the next serial filter's buffer; task 1's body throws 7: the pipeline is cancelled, the wait
+rethrows 7, and the parked token object is never destroyed.  (Known finding `pipeline-cancel-leaks-buffered-tokens`; the check replays it on
+the real library.) -/
+theorem pipeline_parked_token_leaks :
+    ∃ acts : List Pipe.Act, let s := Pipe.run Pipe.Skel.expected acts
+      s.wpc = .exited ∧ s.outs = [7] ∧ s.nobjs = 1 ∧ (s.objs 0).destroyed = 0 ∧ (s.objs 0).parked = true ∧ s.leaked = 1 := by
+  refine ⟨[.task 0 0, .task 0 0, .task 0 0, .task 0 0, .task 0 4, .task 0 1, .task 0 0, .task 0 0,
+           .task 1 0, .task 1 0, .task 1 7, .task 1 0, .task 1 0, .task 1 0, .task 1 0, .task 1 0, .task 1 0,
+           .waiter, .waiter, .waiter, .waiter], ?_⟩
+  decide
+
+/-- The `on_completion` handlers of `task_group::wait` / `run_and_wait` (both overloads) read the cancellation flag BEFORE they reset the
+context (the `wreset` step of DispatchEH reports the status it read and resets), and they are `on_completion` guards, i.e. they also run
+when the wait rethrows; the dispatcher's catch block stores the exception only inside `if (cancel_group_execution())` and
+`cancel_group_execution` decides the winner with an exchange (the `caught` / `xchg` / `store` steps of every model here). -/
+theorem tg_and_catch_skeleton_ok :
+    Generated.C03.tgSkel = [1, 1, 1, 1, 1, 1] ∧ Generated.C03.catchSkel = [1, 1, 1] := by decide
+
+/-! ## The ledger, for every client -/
+
+/-- a terminated execution of one of the clients of the exception machinery (the waiting call is at its exit) -/
+inductive ClientRun where
+  /-- parallel_for / parallel_invoke / parallel_for_each (feeder items are children spawned by bodies, also while the group is being
+  cancelled) / task_group::wait / run_and_wait: tasks of DispatchEH -/
+  | dispatch (prog : Prog) (rounds : List (List Nat)) (sched : List Act)
+  /-- parallel_reduce / parallel_deterministic_reduce: the join tree with its split Body copies -/
+  | reduce (sh : Shape) (sched : List RAct)
+  /-- task_arena::execute -/
+  | exec (fn : Outcome) (acts : List Exec.Act)
+  /-- flow graph: node-body tasks under wait_for_all -/
+  | graph (prog : Prog) (rounds : List (List Nat)) (gacts : List Graph.Act)
+  /-- parallel_pipeline: stage tasks and token objects -/
+  | pipe (acts : List Pipe.Act)
+
+/-- join callbacks of the program do not throw (the case in which the library itself finalises a task twice: `eh_join_throw_finalised_twice`) -/
+def ClientRun.joinsOk : ClientRun → Prop
+  | .dispatch prog _ _ => ∀ sp ∈ prog, sp.join = .ok
+  | .graph prog _ _ => ∀ sp ∈ prog, sp.join = .ok
+  | _ => True
+
+/-- the waiting call of the client has reached its exit -/
+def ClientRun.terminated (ek : Exec.Skel) (gk : Graph.Skel) (pk : Pipe.Skel) : ClientRun → Prop
+  | .dispatch prog rounds sched => let s := run prog rounds sched; s.pcs 0 = .wexit ∨ ∃ oe, s.pcs 0 = .wreset oe
+  | .reduce sh sched => (rrun sh sched).released = 1
+  | .exec fn acts => (Exec.run ek fn acts).cpc = .exited
+  | .graph prog rounds gacts => let g := Graph.run gk prog rounds gacts; g.gpc = .retReset ∨ ∃ e, g.gpc = .handler e
+  | .pipe acts => (Pipe.run pk acts).wpc = .exited
+
+/-- every object the library created for the work has been destroyed exactly once -/
+def ClientRun.ledgerOK (ek : Exec.Skel) (gk : Graph.Skel) (pk : Pipe.Skel) : ClientRun → Prop
+  | .dispatch prog rounds sched =>
+    let s := run prog rounds sched
+    (∀ tk ∈ s.tasks, tk.fins = 1 ∧ tk.rels = 1 ∧ tk.execs ≤ 1) ∧ s.stores ≤ 1 ∧ (∀ r ∈ s.results, r.stores ≤ 1)
+  | .reduce sh sched => let s := rrun sh sched; s.tree.Safe ∧ s.tree.Done s.cancelled
+  | .exec fn acts =>
+    let s := Exec.run ek fn acts
+    s.dtDestroyed = (if s.deleg then 1 else 0) ∧ s.excFreed = s.excAlloc ∧ s.excAlloc ≤ 1 ∧ s.touchedDead = 0
+  | .graph prog rounds gacts =>
+    let g := Graph.run gk prog rounds gacts
+    (∀ tk ∈ g.d.tasks, tk.fins = 1 ∧ tk.rels = 1 ∧ tk.execs ≤ 1) ∧ (∀ r ∈ g.d.results, r.stores ≤ 1)
+  | .pipe acts =>
+    let s := Pipe.run pk acts
+    (∀ i, i < s.ntasks → (s.tasks i).fins = 1 ∧ (s.tasks i).rels = 1) ∧
+    (∀ a, a < s.nobjs → (s.objs a).destroyed = 1 ∨ ((s.objs a).destroyed = 0 ∧ (s.objs a).parked = true ∧ pk.bufferClears = false))
+
+/-- **The ledger theorem for all clients.**  In every terminated execution of every client — every program / tree shape / functor
+behaviour / schedule — every task object, split Body copy and tree node, delegate, exception object, stage task and token object that the
+library created for the work has been destroyed exactly once (tasks: also released exactly once and executed at most once), with exactly
+two exceptions that are PROVED to be real: a throwing `join` callback (hypothesis `joinsOk`; negation `eh_join_throw_finalised_twice`) and
+a pipeline token still parked at tear-down when the tear-down does not clear (`bufferClears = false` today; negation
+`pipeline_parked_token_leaks`; with `pk.bufferClears = true` the clause says `destroyed = 1` for every token). -/
+theorem objects_destroyed_once_all_clients (ek : Exec.Skel) (hek : ek.ok = true) (gk : Graph.Skel) (pk : Pipe.Skel) (r : ClientRun)
+    (hj : r.joinsOk) (ht : r.terminated ek gk pk) : r.ledgerOK ek gk pk := by
+  cases r with
+  | dispatch prog rounds sched =>
+    simp only [ClientRun.terminated] at ht
+    simp only [ClientRun.ledgerOK]
+    have hq := (eh_rethrow_after_quiescence prog rounds sched _ rfl).1 ht
+    have hf := (eh_every_task_finalised_once_partial prog rounds sched hj _ rfl).1
+    have hs := eh_single_exception prog rounds sched _ rfl
+    refine ⟨fun tk htk => ?_, hs.1, fun r hr => (hs.2.2.2.2 r hr).1⟩
+    have hd := hq.2.1 tk htk
+    have := hf tk htk
+    exact ⟨this.2.2.2.2.1 hd, this.2.2.2.1.mp hd, this.1⟩
+  | reduce sh sched =>
+    simp only [ClientRun.terminated] at ht
+    have := reduce_bodies_destroyed_once sh sched _ rfl
+    exact ⟨this.1, this.2.2.2 ht⟩
+  | exec fn acts =>
+    simp only [ClientRun.terminated] at ht
+    have := execute_exception_to_caller ek hek fn acts _ rfl
+    obtain ⟨_, _, _, _, h5, h6⟩ := this
+    exact ⟨(h6 ht).1, (h6 ht).2, h5.2.2.1, h5.2.2.2⟩
+  | graph prog rounds gacts =>
+    simp only [ClientRun.terminated] at ht
+    simp only [ClientRun.ledgerOK]
+    have hG := Graph.ginv_run gk prog rounds gacts
+    obtain ⟨acts, hacts⟩ := Graph.d_reachable gk prog rounds gacts
+    have hq : Graph.Quiescent (Graph.run gk prog rounds gacts).d := by
+      rcases ht with ht | ⟨e, ht⟩
+      · exact Graph.quiescent_of_wreset hG.dinv (hG.ret ht)
+      · exact (hG.handler e ht).1
+    have hf := (eh_every_task_finalised_once_partial prog rounds acts hj _ rfl).1
+    have hs := eh_single_exception prog rounds acts _ rfl
+    rw [hacts] at hq ⊢
+    refine ⟨fun tk htk => ?_, fun r hr => (hs.2.2.2.2 r hr).1⟩
+    have hd := hq.2.1 tk htk
+    have := hf tk htk
+    exact ⟨this.2.2.2.2.1 hd, this.2.2.2.1.mp hd, this.1⟩
+  | pipe acts =>
+    simp only [ClientRun.terminated] at ht
+    have := pipeline_tokens_destroyed_once pk acts _ rfl
+    obtain ⟨_, _, _, h4, h5⟩ := this
+    refine ⟨fun i hi => ?_, fun a ha => ?_⟩
+    · have := (h4 (by rw [ht]; simp)).2 i hi; exact ⟨this.2.1, this.2.2⟩
+    · rcases (h5 ht).2.2.1 a ha with hx | hx
+      · exact Or.inl hx.1
+      · exact Or.inr hx
+
 /-! ### non-vacuity: concrete runs of the executable models -/
 
 /-- two threads, a root that submits two children, one of which throws 7: the wait rethrows 7 and the group is reset -/
@@ -256,6 +623,46 @@ example :
     let s := rrun (.node .leaf .leaf) [.op [] (.start false false), .op [] (.start true true), .op [] (.finish true), .op [] (.dec true),
       .op [] (.finish false), .op [] (.dec false), .op [] .joinDel, .decRoot]
     s.tree.totals = (1, 1, 1, 1, 1) ∧ s.released = 1 := by
+  decide
+
+/-- task_arena::execute, delegated, the functor throws 7 on thread 3: the exception leaves on the caller (thread 0), once, after the functor
+ended and the delegate was completed; one exception object allocated and freed; the delegate destroyed once -/
+example :
+    let s := Exec.run Exec.Skel.expected (.throw 7) ([.caller 1, .caller 0, .take 3] ++ List.replicate 9 (.run 3) ++ [.caller 1] ++ List.replicate 6 (.caller 0))
+    s.outs = [(0, 7)] ∧ s.returned = 0 ∧ s.cpc = .exited ∧ s.started = 1 ∧ s.ended = 1 ∧ s.dtDestroyed = 1 ∧ s.excAlloc = 1 ∧ s.excFreed = 1 ∧
+      s.touchedDead = 0 := by
+  decide
+
+/-- the caller obtains a slot and runs the delegated functor itself -/
+example :
+    let s := Exec.run Exec.Skel.expected (.throw 7) ([.caller 1, .caller 0, .caller 0, .take 0] ++ List.replicate 9 (.run 0) ++ [.caller 1] ++ List.replicate 6 (.caller 0))
+    s.outs = [(0, 7)] ∧ s.cpc = .exited ∧ s.runner = some 0 ∧ s.hasSlot = true := by
+  decide
+
+/-- flow graph: one node body throws 7 while another body runs; wait_for_all throws 7 from the handler only after both ended, the graph is
+left cancelled with exception_thrown() set; reset() clears it -/
+example :
+    let prog : Prog := [{ kids := [], body := .throw 7, join := .ok }, { kids := [], body := .ok, join := .ok }]
+    let sched : List (Nat × Nat) := [(0, 0), (0, 0), (0, 0), (1, 0), (1, 0), (2, 1), (2, 1), (1, 0), (1, 0), (1, 0), (1, 0), (1, 0), (1, 0), (1, 0), (1, 0),
+      (2, 1), (2, 1), (2, 1), (2, 1), (0, 0), (0, 0), (0, 0), (0, 0)]
+    let g := Graph.run Graph.Skel.expected prog [[0, 1]] (sched.map fun p => Graph.Act.d (.thr p.1 p.2))
+    let g' := (Graph.step g .reset).1
+    g.outs = [7] ∧ g.rets = 0 ∧ g.gCancelled = true ∧ g.gCaught = true ∧ g.needsReset = true ∧ g.d.cancelled = false ∧
+      g'.gCancelled = false ∧ g'.gCaught = false ∧ g'.needsReset = false ∧ g'.gActive = true := by
+  decide
+
+/-- pipeline with a clearing tear-down: the parked token of `pipeline_parked_token_leaks` is destroyed once -/
+example :
+    let s := Pipe.run { Pipe.Skel.expected with bufferClears := true } [.task 0 0, .task 0 0, .task 0 0, .task 0 0, .task 0 4, .task 0 1, .task 0 0, .task 0 0,
+           .task 1 0, .task 1 0, .task 1 7, .task 1 0, .task 1 0, .task 1 0, .task 1 0, .task 1 0, .task 1 0, .waiter, .waiter, .waiter, .waiter]
+    s.wpc = .exited ∧ s.outs = [7] ∧ (s.objs 0).destroyed = 1 ∧ s.leaked = 0 := by
+  decide
+
+/-- pipeline: the body of the second filter throws while it holds its input token: the token is finalised by ~stage_task, once -/
+example :
+    let s := Pipe.run Pipe.Skel.expected [.task 0 0, .task 0 0, .task 0 0, .task 0 0, .task 0 0, .task 0 0, .task 0 0, .task 0 9, .task 0 0, .task 0 0, .task 0 0, .task 0 0,
+      .task 0 0, .task 0 0, .waiter, .waiter, .waiter, .waiter]
+    s.wpc = .exited ∧ s.outs = [9] ∧ s.nobjs = 1 ∧ (s.objs 0).destroyed = 1 ∧ (s.tasks 0).fins = 1 ∧ s.leaked = 0 := by
   decide
 
 end TbbVerif.C03
